@@ -79,3 +79,23 @@ Fixpoint add_path (p : list string) (ps : list (list string)) : list (list strin
 Definition spec_dirs (prune : bool) (files : list file) : list (list string) :=
   fold_left (fun ps f => if shown prune f then fold_left (fun ps p => add_path p ps) (prefixes (fpath f)) ps else ps)
             files [ [] ].
+
+(* ---- addressing the tree ---- *)
+(* the node reached by following path p from t (children are looked up by name, first match, as in a dict) *)
+Fixpoint lookup (p : list string) (t : tnode) : option tnode :=
+  match p with
+  | [] => Some t
+  | c :: r => match find (fun x => String.eqb (tname x) c) (tch t) with
+              | Some x => lookup r x
+              | None => None
+              end
+  end.
+Definition prefix_eq (p q : list string) : bool := path_eqb p q || strict_prefix p q.
+(* what the file system guarantees about the paths of a code base: distinct,
+   none is a proper prefix of another, none is the root itself *)
+Definition wf_paths (files : list file) : Prop :=
+  NoDup (map fpath files) /\
+  (forall f g, In f files -> In g files -> strict_prefix (fpath f) (fpath g) = false) /\
+  (forall f, In f files -> fpath f <> []).
+(* CodeBase.__contains__ resolves the path first, so a symlink that is iterated has its target in the code base *)
+Definition links_ok (files : list file) : Prop := forall f, In f files -> flink f = true -> ftarget_in f = true.
